@@ -16,7 +16,11 @@ Record case := {
   c_prev_dump2 : ttnode; c_prev_iter2 : kvs;         (* prev after Diff *)
   c_diff_dump : ttnode; c_diff_iter : kvs;           (* cur.Diff(prev) *)
   c_diff_rt : option kvs;                            (* Iterate(Deserialize(diff.Bytes())) *)
-  c_scaled : option kvs                              (* Iterate(Deserialize(cur.Clone(m,d).Bytes())) *)
+  c_scaled : option kvs;                             (* Iterate(Deserialize(cur.Clone(m,d) serialized)) *)
+  (* payloads kept alive while other payloads are produced (the upstream queues jobs): A = cur.Clone(m,d).Bytes(),
+     then D = diff.Bytes(), then Bytes() of a larger and of a smaller trie; only THEN A and D are decoded *)
+  c_scaled_held : option kvs;
+  c_diff_held : option kvs
 }.
 
 (* ---- the specification side: plain per-key arithmetic on the inputs, no trie involved ------- *)
@@ -84,6 +88,16 @@ Definition check_case (c : case) : verdict :=
           | None => false
           end)
          "the serialized diff does not decode to the clipped differences";
+    spec (match c_scaled_held c with
+          | Some l => reports l (fun k => tt_scale_val (c_m c) (c_d c) (sc k)) (op_keys cur)
+          | None => false
+          end)
+         "Bytes(): a payload kept while later payloads were produced no longer decodes to floor(v*m/d) per stack";
+    spec (match c_diff_held c with
+          | Some l => reports (filter (fun kv => nonempty (fst kv)) l) want_diff (filter nonempty keys)
+          | None => false
+          end)
+         "Bytes(): the diff payload kept while later payloads were produced no longer decodes to the clipped differences";
     (* --- model vs implementation --- *)
     corr (tt_eqb mcur (c_cur_dump c) && tt_eqb mprev (c_prev_dump c)) "tt_insert model differs from Trie.Insert (structure)";
     corr (kvs_eqb (tt_iterate mcur) (c_cur_iter c) && kvs_eqb (tt_iterate mprev) (c_prev_iter c))
